@@ -18,7 +18,11 @@ World scenarios (registry + weak sets + activations; C02, C04)
   <tgt> = all:m | type:m:ty | set:k
 Every answer is `ok <result> || <dump of all registries, sets and live agents>`.
 
-AgentSet scenarios (C03): see `asetLine`.
+AgentSet scenarios (C03): see `asetLine`.  Besides the methods `AgentSet` defines itself, the inherited mixin methods:
+  setop or|and|sub|xor|rsub s <other>    a | b, a & b, a - b, a ^ b, [..] - a   (new set)
+  isetop or|and|sub|xor s <other>        a |= b, …                              (in place)
+  cmp le|lt|ge|gt|eq|ne s t | disjoint s <other> | pop s | clear s | index s a [start [stop]] | count s a | reversed s
+  <other> = s:<k> | l:<ids> | x          (x: not iterable → TypeError; glue answered by the driver)
 -/
 open Mesa Mesa.Agents
 
@@ -247,6 +251,20 @@ def fmtOptInt : Option Int → String
   | some v => toString v | none => "None"
 
 open Mesa.ASet in
+/-- right-hand operand of a set operation: `s:<k>` another set, `l:<ids>` a plain iterable of agents,
+    `x` something that is not iterable (`some none`) -/
+def parseOther (nsets npop : Nat) (s : String) : Option (Option Other) :=
+  match s.splitOn ":" with
+  | ["x"] => some none
+  | ["s", k] => do
+    let k ← k.toNat?
+    if k < nsets then pure (some (.set k)) else none
+  | ["l", ids] => do
+    let ids ← parseNats ids
+    if ids.all (· < npop) then pure (some (.list ids)) else none
+  | _ => none
+
+open Mesa.ASet in
 def dumpStore (st : Store) : String :=
   let ss := "|".intercalate (st.sets.zipIdx.map fun (l, k) => s!"S{k}={joinNat "," l}")
   let ags := " ".intercalate (st.pop.map fun a =>
@@ -385,6 +403,80 @@ def asetLine (st : Store) (ws : List String) : Store × String :=
     | some s, some i, some j =>
       if s < nsets then (st, okS st s!"items={joinNat "," (slice st s i j)}") else bad
     | _, _, _ => bad
+  | [kind, op, s, o] =>
+    -- set algebra: `setop or|and|sub|xor|rsub s <other>` (new set), `isetop or|and|sub|xor s <other>` (in place),
+    -- `cmp le|lt|ge|gt|eq|ne s t`
+    if kind = "cmp" then
+      let opP : Option CmpOp :=
+        if op = "le" then some .le else if op = "lt" then some .lt else if op = "ge" then some .ge
+        else if op = "gt" then some .gt else if op = "eq" then some .eq else if op = "ne" then some .ne else none
+      match opP, s.toNat?, o.toNat? with
+      | some op, some s, some t =>
+        if s < nsets && t < nsets then (st, okS st s!"cmp={if cmp st op s t then 1 else 0}") else bad
+      | _, _, _ => bad
+    else if kind = "setop" || kind = "isetop" then
+      let opP : Option SetOp :=
+        if op = "or" then some .or else if op = "and" then some .and else if op = "sub" then some .sub
+        else if op = "xor" then some .xor else if op = "rsub" && kind = "setop" then some .rsub else none
+      match opP, s.toNat? with
+      | some op, some s =>
+        if s < nsets then
+          match parseOther nsets npop o with
+          | some none => (st, "err Type")          -- a non-iterable operand: TypeError, nothing changes
+          | some (some o) =>
+            if op = .rsub && (match o with | .set _ => true | .list _ => false) then bad
+            else if kind = "setop" then let (st', k) := setop st op s o; (st', okS st' s!"set={k}")
+            else let st' := isetop st op s o; (st', okS st' "self")
+          | none => bad
+        else bad
+      | _, _ => bad
+    else if kind = "index" then
+      -- `index s a start` (stop = None)
+      match op.toNat?, s.toNat?, o.toInt? with
+      | some s, some a, some start =>
+        if s < nsets && a < npop then
+          match index st s a start none with
+          | .ok i => (st, okS st s!"index={i}")
+          | .error e => (st, fmtErr e)
+        else bad
+      | _, _, _ => bad
+    else bad
+  | ["index", s, a, start, stop] =>
+    match s.toNat?, a.toNat?, start.toInt?, stop.toInt? with
+    | some s, some a, some start, some stop =>
+      if s < nsets && a < npop then
+        match index st s a start (some stop) with
+        | .ok i => (st, okS st s!"index={i}")
+        | .error e => (st, fmtErr e)
+      else bad
+    | _, _, _, _ => bad
+  | ["disjoint", s, o] =>
+    match s.toNat? with
+    | some s =>
+      if s < nsets then
+        match parseOther nsets npop o with
+        | some none => (st, "err Type")
+        | some (some o) => (st, okS st s!"disjoint={if isdisjoint st s o then 1 else 0}")
+        | none => bad
+      else bad
+    | none => bad
+  | ["pop", s] =>
+    match s.toNat? with
+    | some s =>
+      if s < nsets then
+        match pop st s with
+        | .ok (st', a) => (st', okS st' s!"pop={a}")
+        | .error e => (st, fmtErr e)
+      else bad
+    | none => bad
+  | ["clear", s] =>
+    match s.toNat? with
+    | some s => if s < nsets then let st' := clear st s; (st', okS st' "cleared") else bad
+    | none => bad
+  | ["reversed", s] =>
+    match s.toNat? with
+    | some s => if s < nsets then (st, okS st s!"items={joinNat "," (reversed st s)}") else bad
+    | none => bad
   | [op, s, a] =>
     match s.toNat?, a.toNat? with
     | some s, some a =>
@@ -396,6 +488,11 @@ def asetLine (st : Store) (ws : List String) : Store × String :=
           | .ok st' => (st', okS st' "removed")
           | .error e => (st, fmtErr e)
         else if op = "contains" then (st, okS st s!"in={if contains st s a then 1 else 0}")
+        else if op = "count" then (st, okS st s!"count={count st s a}")
+        else if op = "index" then
+          match index st s a 0 none with
+          | .ok i => (st, okS st s!"index={i}")
+          | .error e => (st, fmtErr e)
         else bad
       else bad
     | _, _ => bad
